@@ -899,6 +899,92 @@ theorem c04_exit_completes_all {s : QState} (c : Clock) (hpc : s.wpc = .shutFlus
       s'.log = s.log ++ [.flush, .closed] ++ (s.waiting ++ s.sigs).map (Obs.completed · false) := by
   unfold wstep; rw [hpc]; exact ⟨_, rfl, rfl, rfl⟩
 
+/-- **Completions at exit come after the final drain and flush.** The wakers that are still pending
+when the writer shuts down (waiting, counting down, or still in the channel) are released only by
+the very last step of `run`: that step first flushes the stream and drops it, then completes them —
+and if the shutdown timeout did not fire, every entry pushed before the shutdown began (before the
+flag was stored; every entry, on the no-appenders path) had already been handed to the stream or
+displaced before that flush. In particular a flush requested on a live queue never completes while
+entries appended before it (and before the shutdown) are still unwritten. -/
+theorem c04_exit_barrier {s s' : QState} {c : Clock} (hr : Reachable s) (hpc : s.wpc = .shutFlush)
+    (h : wstep s c = some s') :
+    s'.log = s.log ++ [.flush, .closed] ++ (s.waiting ++ s.sigs).map (Obs.completed · false) ∧
+    s'.waiting = [] ∧ s'.sigs = [] ∧
+    (s.shutHit = false → ∀ e ∈ s.pushOrder.take (promised s), e ∈ delivered s.log ∨ e ∈ displaced s.log) := by
+  have hi := shutInv_reachable hr
+  unfold wstep at h
+  rw [hpc] at h
+  simp only [Option.some.injEq] at h
+  subst h
+  exact ⟨rfl, rfl, rfl, hi.drained (by rw [hpc]; rfl)⟩
+
+/-- Before that last step nothing completes a flush future "dead": a `completed _ false` observation
+is produced only by the exit step or by a `flushSend` after the exit. -/
+theorem c04_dead_completion_origin {s s' : QState} {ev : Ev} {i : Nat} (h : step s ev = some s')
+    (hnew : Obs.completed i false ∈ s'.log.drop s.log.length) :
+    (∃ c, ev = .w c ∧ s.wpc = .shutFlush) ∨ (ev = .flushSend ∧ s.wpc = .exited) := by
+  have hdrop : ∀ added : List Obs, s'.log = s.log ++ added → Obs.completed i false ∈ added := by
+    intro added ha; rw [ha] at hnew; simpa using hnew
+  cases ev with
+  | push p =>
+    exfalso
+    obtain ⟨hpc, _⟩ := push_core h
+    cases hpc with
+    | room _ _ hlog _ => have := hdrop [] (by simp [hlog]); simp at this
+    | zero _ _ hlog _ => have := hdrop [] (by simp [hlog]); simp at this
+    | displace d t _ _ _ hlog _ => have := hdrop _ hlog; simp at this
+  | unpark p => exfalso; simp only [step] at h; split at h <;> cases h; simpa using hdrop [] (by simp)
+  | flushSend =>
+    simp only [step] at h
+    split at h <;> cases h
+    · rename_i hex; exact .inr ⟨rfl, hex⟩
+    · exfalso; simpa using hdrop [] (by simp)
+  | flushUnpark j => exfalso; simp only [step] at h; split at h <;> cases h; simpa using hdrop [] (by simp)
+  | clone => exfalso; simp only [step] at h; split at h <;> cases h; simpa using hdrop [] (by simp)
+  | dropHandle => exfalso; simp only [step] at h; split at h <;> cases h; simpa using hdrop [] (by simp)
+  | forget => exfalso; simp only [step] at h; split at h <;> cases h; simpa using hdrop [] (by simp)
+  | dropJoinBegin => exfalso; simp only [step] at h; split at h <;> cases h; simpa using hdrop [] (by simp)
+  | dropJoinUnpark => exfalso; simp only [step] at h; split at h <;> cases h; simpa using hdrop [] (by simp)
+  | dropJoinEnd =>
+    exfalso; simp only [step] at h; split at h <;> cases h
+    have := hdrop _ rfl; simp at this
+  | w c =>
+    simp only [step] at h
+    unfold wstep at h
+    split at h
+    · exfalso; split at h <;> cases h <;> simpa using hdrop [] (by simp)
+    · exfalso; cases h
+      have := hdrop _ rfl
+      unfold consumeObs at this; split at this <;> simp at this
+    · exfalso; cases h
+      have := hdrop _ (by rw [List.append_assoc])
+      simp only [List.mem_append, List.mem_map] at this
+      rcases this with h1 | ⟨j, _, hj⟩
+      · split at h1 <;> simp at h1
+      · cases hj
+    · exfalso
+      split at h
+      · cases h; simpa using hdrop [] (by simp)
+      · split at h
+        · cases h; simpa using hdrop [] (by simp)
+        · split at h <;> cases h <;> simpa using hdrop [] (by simp)
+    · exfalso
+      split at h
+      · cases h; simpa using hdrop [] (by simp)
+      · split at h
+        · cases h; simpa using hdrop [] (by simp)
+        · cases h
+    · exfalso; split at h <;> cases h <;> simpa using hdrop [] (by simp)
+    · exfalso; cases h; have := hdrop _ rfl; simp at this
+    · exfalso; split at h <;> cases h <;> simpa using hdrop [] (by simp)
+    · exfalso; split at h <;> cases h <;> simpa using hdrop [] (by simp)
+    · exfalso; split at h <;> cases h <;> simpa using hdrop [] (by simp)
+    · exfalso; cases h
+      have := hdrop _ rfl
+      unfold consumeObs at this; split at this <;> simp at this
+    · rename_i hpc; exact .inl ⟨c, rfl, hpc⟩
+    · cases h
+
 /-! ## Non-vacuity: capacity 2, a producer refills after every pop, the ring is never empty -/
 
 def nvC : Clock := ⟨true, false, false, false⟩
@@ -936,3 +1022,5 @@ end Queue
 #print axioms Queue.c04_bounded_loop
 #print axioms Queue.c04_after_exit_immediate
 #print axioms Queue.c04_exit_completes_all
+#print axioms Queue.c04_exit_barrier
+#print axioms Queue.c04_dead_completion_origin
